@@ -32,7 +32,11 @@ func c05Oracle(run *vl.Run, r *refchess.Pos, fen string, before snap, pAfter *po
 	}
 	best := res.BestMove
 	if best == MoveNone {
-		run.Violate("no-bestmove", "search of a non-terminal position returned no best move", rep(nil))
+		cls := "no-bestmove"
+		if caseRootIsDrawn(fen) {
+			cls = "no-bestmove:root-drawn-by-repetition-or-50-moves"
+		}
+		run.Violate(cls, "search of a position with legal moves returned no best move", rep(nil))
 		return
 	}
 	bm, ok := r.FindUci(best.StringUci())
@@ -129,9 +133,19 @@ func c05(tier string, args []string) int {
 		}
 		small = few
 	}
+	drawStep := 24
+	if tier == "thorough" {
+		drawStep = 4
+	}
+	// the draw rules inside and at the root of the tree: clocks 97..101, shuffle histories (root = second or third occurrence)
 	for _, f := range append(append([]string{}, small...), mid...) {
-		r, err := refchess.ParseFEN(f)
-		if err == nil && r.Valid() && len(r.LegalMoves()) > 0 && r.Half < 100 {
+		r, _, err := caseRef(f)
+		if err == nil && len(r.LegalMoves()) > 0 {
+			fens = append(fens, f)
+		}
+	}
+	for _, f := range drawCases(append([]string{}, fens...), drawStep, true) {
+		if r, _, err := caseRef(f); err == nil && len(r.LegalMoves()) > 0 {
 			fens = append(fens, f)
 		}
 	}
@@ -154,19 +168,36 @@ func c05(tier string, args []string) int {
 		if run.Expired() || fi%2 != sub {
 			return
 		}
-		r := refchess.MustFEN(fen)
+		root := fen
 		drv := &capDriver{}
-		// histories: 0 fresh Search per search; 1 one Search reused over all limits after a search of another position
-		for hist := 0; hist < 2; hist++ {
+		// histories: 0 fresh Search per search; 1 one Search reused over all limits after a search of another position;
+		// 2 game continuation: one Search reused after a depth-2 search of the position one ply earlier (the hash table
+		// then holds an entry with a move for the root itself and for its successors), searching the position after
+		// that search's best move
+		for hist := 0; hist < 3; hist++ {
 			var reused *search.Search
+			fen := root
 			if hist == 1 {
 				reused = search.NewSearch()
 				reused.SetUciHandler(drv)
 				op, _ := position.NewPositionFen(otherFen)
 				runSearch(reused, op, search.Limits{Depth: 2})
 			}
+			if hist == 2 {
+				reused = search.NewSearch()
+				reused.SetUciHandler(drv)
+				var first search.Result
+				if _, pan := vl.Guard(func() { first = runSearch(reused, casePos(root), search.Limits{Depth: 2, Nodes: 4000}) }); pan || first.BestMove == MoveNone {
+					continue
+				}
+				fen = caseAppend(root, first.BestMove.StringUci())
+				if nr, _, err := caseRef(fen); err != nil || len(nr.LegalMoves()) == 0 {
+					continue
+				}
+			}
+			r := mustCaseRef(fen)
 			for _, lim := range limits {
-				if hist == 1 && strings.HasPrefix(lim.name, "nodes") && lim.sl.Nodes%4 != 0 {
+				if hist >= 1 && strings.HasPrefix(lim.name, "nodes") && lim.sl.Nodes%4 != 0 {
 					continue
 				}
 				s := reused
@@ -174,10 +205,7 @@ func c05(tier string, args []string) int {
 					s = search.NewSearch()
 					s.SetUciHandler(drv)
 				}
-				p, err := position.NewPositionFen(fen)
-				if err != nil {
-					continue
-				}
+				p := casePos(fen)
 				before := takeSnap(p, nil)
 				drv.reset()
 				var res search.Result
@@ -187,13 +215,16 @@ func c05(tier string, args []string) int {
 				msg, pan := vl.Guard(func() { res = runSearch(s, p, lim.sl) })
 				run.AddEvals(1)
 				run.AddStates(1)
-				desc := map[string]interface{}{"limit": lim.name, "config": cfgName, "history": []string{"fresh Search", "Search reused after other searches"}[hist]}
+				desc := map[string]interface{}{"limit": lim.name, "config": cfgName, "history": []string{"fresh Search", "Search reused after other searches", "Search reused after a depth-2 search of the position one ply earlier"}[hist]}
 				if pan {
 					run.Violate("search-panic", "search panicked: "+msg, map[string]interface{}{"kind": "search", "fen": fen, "limit": lim.name, "config": cfgName})
 					reused = nil
 					continue
 				}
 				run.AddTransitions(int64(s.NodesVisited()))
+				if hist == 2 {
+					desc["searched_before"] = root
+				}
 				c05Oracle(run, r, fen, before, p, res, drv, desc)
 				if fi%40 == 0 && lim.name == "depth 1" && hist == 0 {
 					run.SampleCat("search", map[string]interface{}{"fen": fen, "limit": lim.name, "config": cfgName, "bestmove": res.BestMove.StringUci(), "pv": res.Pv.StringUci()})
